@@ -6,14 +6,44 @@ the mutual induction `valuesEqual ↔ erase =`.
 namespace QM.Equal
 open QM QM.VM
 
-/-- A context whose canonical table is the one `compute_canonical_tuples` produces for its tuple
-table — what `update_program` establishes. -/
-def Ctx.Coherent (X : Ctx) : Prop := X.canon = canonicalTuples X.tuples
+/-- The stored length of a well-formed rope is the length of its flattening. -/
+theorem Rope.len_eq : ∀ r : Rope, r.LenOK → r.len = r.toVec.length
+  | .owned _, _ => rfl
+  | .zeroed _, _ => by simp [Rope.len, Rope.toVec]
+  | .slice p off l, h => by
+    have ih := Rope.len_eq p h.1
+    have hb := h.2
+    simp only [Rope.len, Rope.toVec, List.length_take, List.length_drop]
+    omega
+  | .concat l r t, h => by
+    have i1 := Rope.len_eq l h.1
+    have i2 := Rope.len_eq r h.2.1
+    simp only [Rope.len, Rope.toVec, List.length_append, h.2.2, i1, i2]
+  | .tiled u c, h => by
+    have ih := Rope.len_eq u h.1
+    have hb := h.2
+    simp only [Rope.len, Rope.toVec, List.length_flatten, List.map_replicate, List.sum_replicate_nat]
+    rw [Nat.min_eq_left hb, ih, Nat.mul_comm]
 
-theorem Ctx.ofProgram_coherent (ts cs hp) : (Ctx.ofProgram ts cs hp).Coherent := rfl
+theorem Rope.lenOKB_iff : ∀ r : Rope, r.lenOKB = true ↔ r.LenOK
+  | .owned _ => by simp [Rope.lenOKB, Rope.LenOK]
+  | .zeroed _ => by simp [Rope.lenOKB, Rope.LenOK]
+  | .slice p _ _ => by simp [Rope.lenOKB, Rope.LenOK, Rope.lenOKB_iff p]
+  | .concat l r _ => by simp [Rope.lenOKB, Rope.LenOK, Rope.lenOKB_iff l, Rope.lenOKB_iff r, and_assoc]
+  | .tiled u _ => by simp [Rope.lenOKB, Rope.LenOK, Rope.lenOKB_iff u]
 
-/-- All four sub-arms of the binary comparison compute "both handles resolve and the bytes agree". -/
-theorem binEqual_eq (X : Ctx) (a b : Bin) :
+/-- What `update_program` and the allocation discipline establish: the canonical table is the one
+`compute_canonical_tuples` produces for the tuple table, and every heap rope stores its true length. -/
+def Ctx.Coherent (X : Ctx) : Prop :=
+  X.canon = canonicalTuples X.tuples ∧ ∀ r ∈ X.heap, r.LenOK
+
+theorem Ctx.ofProgram_coherent (ts cs hp) (h : ∀ r ∈ hp, Rope.LenOK r) : (Ctx.ofProgram ts cs hp).Coherent :=
+  ⟨rfl, h⟩
+
+/-- **Binary equality does not depend on the rope shape**: all four sub-arms compute "both handles
+resolve and the flattened bytes agree" — for the heap/heap arm this needs the length invariant
+(the `len()` fast path answers `false` as soon as the *stored* lengths differ). -/
+theorem binEqual_eq (X : Ctx) (hH : ∀ r ∈ X.heap, r.LenOK) (a b : Bin) :
     binEqual X a b = (match X.bytesOf a, X.bytesOf b with
       | some x, some y => x == y
       | _, _ => false) := by
@@ -22,8 +52,30 @@ theorem binEqual_eq (X : Ctx) (a b : Bin) :
   · rfl
   · cases X.constBytes _ <;> cases X.heapBytes _ <;> simp
     rw [Bool.eq_iff_iff]; simp only [beq_iff_eq]; exact eq_comm
-  · cases X.heapBytes _ <;> cases X.heapBytes _ <;> simp
-    intro h; simp [h]
+  · rename_i ia ib
+    simp only [Ctx.heapBytes]
+    cases ha : X.heap[ia]? with
+    | none => simp
+    | some ra =>
+      cases hb : X.heap[ib]? with
+      | none => simp
+      | some rb =>
+        have la := Rope.len_eq ra (hH ra (List.mem_of_getElem? ha))
+        have lb := Rope.len_eq rb (hH rb (List.mem_of_getElem? hb))
+        simp only [Option.map_some]
+        by_cases hl : ra.len = rb.len
+        · simp [hl]
+        · have : ra.toVec ≠ rb.toVec := by
+            intro e; apply hl; rw [la, lb, e]
+          simp [hl, this]
+
+/-- Without the invariant the verdict *does* depend on the shape: a `Concat` node that stores a
+wrong total is unequal to the flat binary with the same bytes. -/
+theorem binEqual_needs_LenOK :
+    let X : Ctx := { tuples := [], canon := [], consts := [],
+                     heap := [.concat (.owned [1]) (.owned [2]) 3, .owned [1, 2]] }
+    binEqual X (.heap 0) (.heap 1) = false ∧ X.heapBytes 0 = X.heapBytes 1 := by
+  decide
 
 theorem canonOf_eq_iff (X : Ctx) (hX : X.Coherent) (i j : Nat) (ti tj : TupleInfo)
     (hi : X.tuples[i]? = some ti) (hj : X.tuples[j]? = some tj) :
@@ -33,7 +85,7 @@ theorem canonOf_eq_iff (X : Ctx) (hX : X.Coherent) (i j : Nat) (ti tj : TupleInf
   have := canon_spec X.tuples i j hi' hj'
   rw [← this]
   unfold Ctx.canonOf
-  rw [hX]
+  rw [hX.1]
   simp [canonicalTuples_length, hi', hj']
 
 theorem eraseList_length_eq (X : Ctx) : ∀ (as bs : ValList), eraseList X as = eraseList X bs → as.length = bs.length
@@ -78,7 +130,7 @@ theorem valuesEqual_iff_erase_aux (X : Ctx) (hX : X.Coherent) (pf : Nat → Nat)
     all_goals try (simp [valuesEqual, ea]; done)
     case bin =>
       obtain ⟨bs, hxb, eb⟩ := erase_bin_of_wf X _ hb
-      simp [valuesEqual, binEqual_eq, hxa, hxb, ea, eb]
+      simp [valuesEqual, binEqual_eq X hX.2, hxa, hxb, ea, eb]
     case tup => obtain ⟨⟨t, ht, _⟩, _⟩ := hb; simp [valuesEqual, erase_tup_of_some X _ _ t ht, ea]
   | .ref x, b, _, hb => by
     cases b
